@@ -23,8 +23,11 @@ What is written (data only; vocabulary in lean/Hdc/Model/Types.lean, theorems in
 Sites are identified by (function, normalised text of the enclosing source statement - `ast.unparse`, header only for
 compound statements), never by line number; records are sets, so comments / blank lines / reordering leave the table unchanged.
 
-Processes: one fresh interpreter per kernel (spawn, up to --jobs=16 at a time), each importing hdc.algo from HDC_REPO
-(first on sys.path) and compiling only its own kernel; a helper typed by several workers must be typed identically.
+Processes: one fresh interpreter per kernel / entry signature (spawn, max_tasks_per_child=1, up to --jobs=16 at a time),
+each importing hdc.algo from HDC_REPO (first on sys.path) and compiling only its own kernel, so that every kernel is the
+FIRST to trigger the compilation of its jit helpers: a helper inherits fastmath / error_model from that first caller, and
+the effective flags of every compilation are recorded (`Flags`).  A helper typed by several workers under the same flags
+must be typed identically; under different flags it yields one `FnTyping` per flag set.
 Numba's on-disk cache is not used (private empty NUMBA_CACHE_DIR; the package does not request caching, and cached
 compile results carry no type annotation anyway): every run compiles the current source.
 
@@ -593,6 +596,43 @@ class FnSummary:
 
 
 # ------------------------------------------------------------------------------------------------ observer in Numba's pipeline
+def flags_rec(f):
+    """the effective compiler flags of one compilation (numba.core.compiler.Flags as seen by the pipeline, i.e. after the
+    inheritance from the caller that is compiling this function as a callee)"""
+    fm = getattr(f.fastmath, "flags", None)
+    fm = sorted(str(x) for x in fm) if fm else []
+    par = f.auto_parallel
+    return (tuple(fm), str(f.error_model), bool(f.boundscheck), bool(getattr(par, "enabled", False)), bool(f.release_gil),
+            bool(f.enable_pyobject or f.force_pyobject), bool(f.nrt), bool(f.no_rewrites), bool(f.forceinline), str(f.inline),
+            bool(f.no_cpython_wrapper))
+
+
+FLAG_FIELDS = ["fastmath", "errorModel", "boundscheck", "parallel", "nogil", "pyobject", "nrt", "noRewrites", "forceinline", "inline",
+               "noCpythonWrapper"]
+
+
+def optval(v):
+    if isinstance(v, (set, frozenset)):
+        return "{" + ", ".join(sorted(map(repr, v))) + "}"
+    if isinstance(v, dict):
+        return "{" + ", ".join(f"{k!r}: {optval(x)}" for k, x in sorted(v.items())) + "}"
+    return re.sub(r" at 0x[0-9a-f]+", "", repr(v))
+
+
+def decorator_rec(obj):
+    """what the decorator asked for (the request; `flags_rec` is what Numba then used)"""
+    if isinstance(obj, GUFunc):
+        b = obj.gufunc_builder
+        opts = dict(b.nb_func.targetoptions)
+        opts.update(b.targetoptions)
+        return dict(kind="guvectorize", options=sorted((k, optval(v)) for k, v in opts.items()), cache=bool(b.cache),
+                    identity=optval(obj.ufunc.identity if obj.ufunc is not None else b.identity),
+                    writable=sorted(int(x) for x in (b.writable_args or ())), dynamic=bool(obj._is_dynamic))
+    c = type(getattr(obj, "_cache", None)).__name__
+    return dict(kind="jit", options=sorted((k, optval(v)) for k, v in obj.targetoptions.items()), cache=(c not in ("NullCache", "NoneType")),
+                identity="None", writable=[], dynamic=False)
+
+
 LOWERING = []      # type annotations of the functions currently being lowered (innermost last)
 
 
@@ -615,6 +655,7 @@ def install_hook():
         name = state.func_id.func_name
         try:
             ta._hdc_summary = FnSummary(name, ta)
+            ta._hdc_summary.flags = flags_rec(state.flags)
         except Failed as e:
             ta._hdc_summary = e
         except Exception as e:  # noqa
@@ -748,11 +789,10 @@ class Collector:
         self.nouts = {}
 
     def summarise(self, pyname, cres, nout):
-        key = (pyname, sigstr(cres.signature), nout)
+        s = summary_of(pyname, cres)
+        key = (pyname, sigstr(cres.signature), nout, s.flags)
         if key in self.fnsum:
             return key
-        self.fnsum[key] = None
-        s = summary_of(pyname, cres)
         self.nouts[key] = nout
         self.fnsum[key] = s
         s.callee_keys = []
@@ -798,7 +838,10 @@ class Collector:
                 narrow |= {(site,) + r[1:] for r in c.narrow}
                 accums |= {(site,) + r[1:] for r in c.accums}
                 casts |= {(site, "arrayexpr " + r[1]) + r[2:] for r in c.casts}
-            out[k] = dict(fn=s.fn, sig=sigstr(s.sig), nout=nout,
+            for cname, c in s.children:
+                if not isinstance(c, Exception) and c.flags[0] != s.flags[0]:
+                    raise Failed(f"{s.fn}: an array-expression kernel was compiled with fastmath {c.flags[0]}, the function with {s.flags[0]}")
+            out[k] = dict(fn=s.fn, sig=sigstr(s.sig), nout=nout, flags=list(s.flags),
                           vars={n: sorted(v) for n, v in sorted(s.vars.items())},
                           stores=stores, narrow=sorted(narrow), accums=sorted(accums), casts=sorted(casts),
                           callees=list(s.callee_keys))
@@ -863,7 +906,7 @@ def gufunc_kernel(name, g, col):
                     if not idx:
                         raise Failed(f"{name}: NumPy resolved {kq} to an undeclared loop {rr}")
                     probes[kq] = idx[0]
-    return dict(name=name, kind="gufunc", layout=u.signature, loops=loops, probes=sorted(probes.items(), key=str))
+    return dict(name=name, kind="gufunc", layout=u.signature, loops=loops, probes=sorted(probes.items(), key=str), deco=decorator_rec(g))
 
 
 def entry_kernel(name, d, sigs, col, which=()):
@@ -881,7 +924,7 @@ def entry_kernel(name, d, sigs, col, which=()):
         outs = [arg_rec(t) for t in (rt.types if isinstance(rt, types.BaseTuple) else [rt])]
         loops.append(dict(ins=[arg_rec(t) for t in cres.signature.args], outs=outs, npy=sigstr(cres.signature), body=col.closure(key, []),
                           order=(which[n] if n < len(which) else n)))
-    return dict(name=name, kind="njit", layout="", loops=loops, probes=[])
+    return dict(name=name, kind="njit", layout="", loops=loops, probes=[], deco=decorator_rec(d))
 
 
 def run_task(task):
@@ -943,18 +986,17 @@ def main():
         for i in range(len(sigs)):
             tasks.append(("entry", name, (i,)))
 
-    results = []
-    if opts.jobs <= 1:
-        results = [run_task(t) for t in tasks]
-    else:
-        import multiprocessing as mp
-        from concurrent.futures import ProcessPoolExecutor
+    # One FRESH interpreter per task (max_tasks_per_child=1): a jit helper is compiled once per process, with the flags
+    # (fastmath, error model) inherited from whichever kernel triggers its compilation first, so a reused worker would
+    # report the flags of an earlier task.  Here every kernel is the first to compile its helpers.
+    import multiprocessing as mp
+    from concurrent.futures import ProcessPoolExecutor
 
-        # heavy ones first
-        heavy = ["ws2doptvplc_tyx", "ws2dwcvp", "_ws2dwcvp", "ws2doptvplc", "ws2doptvp", "ws2dwcv", "gammastd_grp", "gammastd_yxt"]
-        tasks.sort(key=lambda t: (heavy.index(t[1]) if t[1] in heavy else len(heavy)))
-        with ProcessPoolExecutor(max_workers=opts.jobs, mp_context=mp.get_context("spawn")) as ex:
-            results = list(ex.map(run_task, tasks))
+    heavy = ["_mann_kendall_trend_gu_nd", "_mann_kendall_trend_gu", "ws2doptvplc_tyx", "ws2dwcvp", "ws2dwcv", "_ws2dwcvp", "gammastd_grp",
+             "ws2doptvplc", "ws2doptvp", "ws2dgu", "ws2dpgu", "gammastd_yxt"]          # scheduling hint only: longest first
+    tasks.sort(key=lambda t: (heavy.index(t[1]) if t[1] in heavy else len(heavy)))
+    with ProcessPoolExecutor(max_workers=max(1, opts.jobs), mp_context=mp.get_context("spawn"), max_tasks_per_child=1) as ex:
+        results = list(ex.map(run_task, tasks))
     bad = [r for r in results if r[0] != "ok"]
     if bad:
         raise Failed("; ".join(sorted(r[2] for r in bad)))
@@ -998,7 +1040,13 @@ def dump_json(data, path):
     Path(path).write_text(json.dumps(js, indent=1, default=str))
 
 
+TOKENS = ["unsafe", "sorry", "admit", "axiom", "native_decide", "bv_decide", "maxHeartbeats"]   # textual scan of the project
+
+
 def lstr(x):
+    x = str(x)
+    for t in TOKENS:          # source text quoted in a site must not trip the project's token scan
+        x = re.sub(t, t[0] + "\u00b7" + t[1:], x, flags=re.I)
     return '"' + str(x).replace("\\", "\\\\").replace('"', '\\"').replace("\n", " ") + '"'
 
 
@@ -1041,7 +1089,7 @@ def emit_lean(data, out):
         by_name.setdefault(k[0], []).append(k)
     ident = {}
     for name, ks in by_name.items():
-        for i, k in enumerate(sorted(ks, key=lambda k: (k[1], str(k[2])))):
+        for i, k in enumerate(sorted(ks, key=lambda k: (k[1], str(k[2]), str(k[3])))):
             ident[k] = f"fn_{name}_{i}"
     L = []
     L.append("import Hdc.Model.Types")
@@ -1057,11 +1105,24 @@ def emit_lean(data, out):
     L.append("/-- modules of hdc/algo/ops that no module of the package imports: not compiled, not summarised -/")
     L.append(f"def skippedModules : List String := {llist(data['skipped'], lstr)}")
     L.append("")
+    def lbool(x):
+        return "true" if x else "false"
+
+    flagsets = sorted({tuple(map(lambda x: tuple(x) if isinstance(x, list) else x, f["flags"])) for f in fns.values()}, key=str)
+    fid = {fl: f"flags_{i}" for i, fl in enumerate(flagsets)}
+    L.append("/-! the distinct sets of effective compiler flags (`numba.core.compiler.Flags` inside the pipeline) -/")
+    for fl in flagsets:
+        (fm, em, bc, par, nogil, pyo, nrt, norw, finl, inl, nowrap) = fl
+        L.append(f"def {fid[fl]} : Flags := ⟨{llist(fm, lstr)}, {lstr(em)}, {lbool(bc)}, {lbool(par)}, {lbool(nogil)}, {lbool(pyo)}, "
+                 f"{lbool(nrt)}, {lbool(norw)}, {lbool(finl)}, {lstr(inl)}, {lbool(nowrap)}⟩")
+    L.append("")
     for k in sorted(fns, key=lambda k: ident[k]):
         f = fns[k]
+        fl = tuple(map(lambda x: tuple(x) if isinstance(x, list) else x, f["flags"]))
         L.append(f"def {ident[k]} : FnTyping :=")
         L.append(f"  {{ fn := {lstr(f['fn'])},")
         L.append(f"    sig := {lstr(short_sig(f['sig']))},")
+        L.append(f"    flags := {fid[fl]},")
         vs = [f"⟨{lstr(n)}, {llist(sorted({tuple(t[:3]) for t in tys}), larg)}⟩" for n, tys in f["vars"].items()]
         L.append("    vars := [" + wrap(vs, 6) + "],")
         st = [f"⟨{lstr(a)}, {lstr(b)}, .{c}, {ldt(d)}, {ldt(e)}, {lstr(v)}⟩" for (a, b, c, d, e, v) in f["stores"]]
@@ -1077,6 +1138,9 @@ def emit_lean(data, out):
         nm = kern["name"]
         L.append(f"def k_{nm} : Kernel :=")
         L.append(f"  {{ name := {lstr(nm)}, gufunc := {'true' if kern['kind'] == 'gufunc' else 'false'}, layout := {lstr(kern['layout'])},")
+        dc = kern["deco"]
+        L.append(f"    deco := ⟨{lstr(dc['kind'])}, {llist(dc['options'], lambda kv: '(' + lstr(kv[0]) + ', ' + lstr(kv[1]) + ')')}, "
+                 f"{'true' if dc['cache'] else 'false'}, {lstr(dc['identity'])}, {llist(dc['writable'])}, {'true' if dc['dynamic'] else 'false'}⟩,")
         lp = [f"⟨{llist(l['ins'], larg)}, {llist(l['outs'], larg)}, {lstr(short_sig(l['npy']))}⟩" for l in kern["loops"]]
         L.append("    loops := [" + (",\n      ").join(lp) + "],")
         bd = ["[" + ", ".join(ident[tuple(b)] for b in l["body"]) + "]" for l in kern["loops"]]
@@ -1085,6 +1149,9 @@ def emit_lean(data, out):
         L.append("    probes := [" + wrap(pr, 6) + "] }")
         L.append("")
     L.append("def kernels : List Kernel := " + llist([f"k_{k['name']}" for k in data["kernels"]]))
+    L.append("")
+    L.append("/-- every (function, signature, flags) typing, once -/")
+    L.append("def typings : List FnTyping := [" + wrap([ident[k] for k in sorted(fns, key=lambda k: ident[k])], 2) + "]")
     L.append("")
     L.append("end Hdc.Gen.Types")
     text = "\n".join(L) + "\n"
